@@ -18,7 +18,7 @@ from vf.props import common
 ID = "C07"
 LEVEL = "exploration"
 RULE = (
-    "Configuration product level {1.1,1.5} x producer {create_cache=True, CLI main() with --rpc} x "
+    "Configuration product level {1.1,1.5} x image naming {by polarisation, by ScanSAR scan suffix only} x producer {create_cache=True, CLI main() with --rpc} x "
     "location {user cache dir, adjacent, both} x product filesystem {local path, file:// URL, "
     "memory://, custom vtrace://} x rpc_write x rpc_read in {1, 2, N, N+1, 1024} x decoy: a "
     "pairwise-covering sample in quick (Hypothesis draws the rest), the full cross product in "
@@ -206,7 +206,10 @@ def run_case(case):
     spec = common.spec_from(
         {
             "level": case["level"],
-            "images": [{"lines": n, "pixels": 3}, {"lines": max(1, n - 1), "pixels": 2}],
+            "images": [
+                dict({"lines": n, "pixels": 3}, **({"pol": "HH", "scan": "F1"} if case.get("naming") == "scan" else {})),
+                dict({"lines": max(1, n - 1), "pixels": 2}, **({"pol": "HH", "scan": "F2"} if case.get("naming") == "scan" else {})),
+            ],
             "vseed": case["vseed"],
             "leader": {"map_projection": case["level"] != "1.1"},
         }
@@ -270,6 +273,8 @@ AXES = {
     "rpc_write": ["1", "2", "N", "N+1", "1024"],
     "rpc_read": ["1", "2", "N", "N+1", "1024"],
     "decoy": [False, True],
+    # image files told apart by polarisation (IMG-HH / IMG-HV) or only by the scan suffix (-F1 / -F2)
+    "naming": ["pol", "scan"],
 }
 
 
@@ -335,7 +340,7 @@ def plan(tier):
 
 def classify(case):
     nontrivial = case["rpc_write"] != case["rpc_read"] or case["location"] == "both" or case["fs"] in ("memory", "vtrace")
-    return nontrivial, [f"fs={case['fs']}", f"producer={case['producer']}", f"location={case['location']}", f"level={case['level']}", f"decoy={case['decoy']}"]
+    return nontrivial, [f"fs={case['fs']}", f"producer={case['producer']}", f"location={case['location']}", f"level={case['level']}", f"decoy={case['decoy']}", f"naming={case.get('naming', 'pol')}"]
 
 
 LEVEL_TEXT = (
